@@ -368,6 +368,10 @@ pub fn scenario(name: &str, params: &Value) -> Scenario {
                 let sizes = [0usize, 1, 510, 511, 512, 513, 514, 16_400, 2_097_152, 1022, 1023, 1024, 1025, 1026, 2048, 5000, 70_000, 3_200_000];
                 let psize = sizes[chz.choose(if full { sizes.len() } else { 9 })];
                 let mut props = vec![Prop::var(P_SUBSCRIPTION_ID, sub_id)];
+                if nuser == 2 {
+                    // (one SUBSCRIBE with overlapping filters: the server lists its identifier once per match)
+                    props.push(Prop::var(P_SUBSCRIPTION_ID, sub_id));
+                }
                 if mask & 1 != 0 {
                     props.push(Prop::byte(P_PAYLOAD_FORMAT, (mask >> 3) as u8 & 1));
                 }
@@ -389,6 +393,10 @@ pub fn scenario(name: &str, params: &Value) -> Scenario {
                 for i in 0..nuser {
                     // with three: dup, other, dup (the same key again after a different one)
                     props.push(Prop::user(if nuser == 3 && i == 1 { "other" } else { "dup" }, &format!("{}", i)));
+                }
+                if nuser == 3 {
+                    // the very same pair once more (name and value): still a property of its own
+                    props.push(Prop::user("dup", "0"));
                 }
                 let ords = orders(props.len(), if full { 4 } else { 3 });
                 let o = &ords[chz.choose(ords.len())];
